@@ -515,6 +515,10 @@ CATALOGUE['C14'] += [
   (F, 'R-PARTIALRAISE', 'camxfiles/one3d/Memmap.py', "        if self.__records % lays != 0:\n            raise ValueError('Incomplete time step: %d records of %d layers'\n                             % (self.__records, lays))\n", ""),
 ]
 
+CATALOGUE['C06'] += [
+  (F, 'R-MASKTMPL', _FN, "        mask = eval(mval, None, f.variables)\n", "        # mask = eval(mval, None, f.variables)\n"),
+  (F, 'R-MASKTMPL', _FN, "        maskexpr = 'np.ma.masked_where(mask, var[:])'", "        maskexpr = 'np.ma.masked_where(mask, var[:].view(np.ndarray))'"),
+]
 CATALOGUE['C10'] += [
   (F, 'R-TIMEREDUCE', _IO, "            outf.SDATE = int(newtimes[0].strftime('%Y%j'))\n            outf.STIME = int(newtimes[0].strftime('%H%M%S'))\n            if len(newtimes) > 1:", "            outf.STIME = int(newtimes[0].strftime('%H%M%S'))\n            if len(newtimes) > 1:"),
   (F, 'R-TIMEREDUCE', _IO, "            if 'TFLAG' in outf.variables:\n                del outf.variables['TFLAG']\n        outf.updatemeta()\n        if 'TSTEP' in kwds:\n            tflag = outf.variables['TFLAG']", "        outf.updatemeta()\n        if 'TSTEP' in kwds and False:\n            tflag = outf.variables['TFLAG']"),
